@@ -82,6 +82,7 @@ def scenarios(draw):
     sc["stale_dir"] = src.bool(0.35)
     sc["stale_mask"] = [src.bool(0.5) for _ in sc["reads"]]
     sc["stale_other_reference"] = src.bool(0.5)
+    sc["stale_force"] = src.bool(0.5)
     if src.bool(0.4):
         sc["opts"] += ["--check_canonical"]
     # how the inputs are named: a YAML description instead of --bam; paths relative to the working directory of the first
@@ -154,6 +155,8 @@ def first_run(sc, paths, out, extra, home, log, crash=None):
 
 def at(cwd, then=None):
     def pre():
+        import time
+        time.sleep = lambda seconds: None          # the countdown before a previous run is overwritten
         os.chdir(cwd)
         if then:
             then()
@@ -196,10 +199,11 @@ def make_stale(sc, d, paths, extra, ctx):
     return stale
 
 
-def start_dir(stale, out):
+def start_dir(stale, out, force=True):
     if stale:
         shutil.copytree(stale, out)
-        return ["--force"]
+        # without --force IsoQuant warns, counts down (the harness skips the waiting) and overwrites all the same
+        return ["--force"] if force else []
     return []
 
 
@@ -219,7 +223,7 @@ def enumerate_scenario(sc, ctx, shard, nshards, modes, stride=1, double_stride=2
         list_out = os.path.join(d, "listing" + sc.get("out_suffix", ""))
         ctx.pipeline_runs += 1
         fresh_reference(paths)
-        code = first_run(sc, paths, list_out, extra + start_dir(stale, list_out), os.path.join(d, "home_list"),
+        code = first_run(sc, paths, list_out, extra + start_dir(stale, list_out, sc.get("stale_force", True)), os.path.join(d, "home_list"),
                          os.path.join(d, "list.log"), crash=(0, "before", lab))
         if code != 0 or not os.path.exists(lab):
             ctx.harness_errors.append("instrumented listing run failed")
@@ -244,7 +248,7 @@ def enumerate_scenario(sc, ctx, shard, nshards, modes, stride=1, double_stride=2
                 h = os.path.join(d, "home_%s_%d" % (mode, k))
                 ctx.pipeline_runs += 1
                 fresh_reference(paths)
-                code = first_run(sc, paths, out, extra + start_dir(stale, out), h, os.path.join(d, "crash.log"),
+                code = first_run(sc, paths, out, extra + start_dir(stale, out, sc.get("stale_force", True)), h, os.path.join(d, "crash.log"),
                                  crash=(k, mode, None))
                 case = {"scenario": sc, "k": k, "mode": mode, "label": label}
                 if code != crashwrap.EXIT_CODE:
@@ -302,7 +306,7 @@ def params_index(sc, d, paths, extra, stale, k, ctx):
     try:
         ctx.pipeline_runs += 2
         fresh_reference(paths)
-        code = first_run(sc, paths, out, extra + start_dir(stale, out), h, os.path.join(d, "crash.log"),
+        code = first_run(sc, paths, out, extra + start_dir(stale, out, sc.get("stale_force", True)), h, os.path.join(d, "crash.log"),
                          crash=(k, "after", None))
         if code != crashwrap.EXIT_CODE:
             return 1
@@ -325,7 +329,7 @@ def double_kill(sc, d, paths, extra, stale, clean_out, case, phase, ctx, n=None)
     try:
         ctx.pipeline_runs += 1
         fresh_reference(paths)
-        code = first_run(sc, paths, out, extra + start_dir(stale, out), h, os.path.join(d, "crash.log"),
+        code = first_run(sc, paths, out, extra + start_dir(stale, out, sc.get("stale_force", True)), h, os.path.join(d, "crash.log"),
                          crash=(k, case["mode"], None))
         if code != crashwrap.EXIT_CODE:
             ctx.note("crash_point_not_reached" if code == 0 else "crash_run_exit_%s" % code)
@@ -387,6 +391,7 @@ def run_enumeration(shard, nshards, seed, n, ctx, tier="quick"):
             # the earlier run in the re-used folder: with the same compressed reference, or with its uncorrected version
             sc["gz_reference"] = i % 4 == 1
             sc["stale_other_reference"] = True
+            sc["stale_force"] = i % 4 == 3
             if "--check_canonical" not in sc["opts"]:
                 sc["opts"] += ["--check_canonical"]
         enumerate_scenario(sc, ctx, shard, nshards, modes, double_stride=2 if tier == "quick" else 1)
@@ -413,7 +418,7 @@ def eval_replay(case, ctx):
         h = os.path.join(d, "home")
         k, mode = case["k"], case["mode"]
         fresh_reference(paths)
-        code = first_run(sc, paths, out, extra + start_dir(stale, out), h, os.path.join(d, "crash.log"),
+        code = first_run(sc, paths, out, extra + start_dir(stale, out, sc.get("stale_force", True)), h, os.path.join(d, "crash.log"),
                          crash=(k, mode, None))
         if code != crashwrap.EXIT_CODE:
             return
